@@ -130,7 +130,7 @@ def _rint_real(x):
 
 
 def xcheck_exact(W, dmin, dmax, thr='1', H=1, offset=0, prefix=(), cap=60, block=(), max_paths=4000, time_cap=None, conf_band=False,
-                 scale=64, bound=16, warm=False):
+                 scale=64, bound=16, warm=False, col0=0):
     """same harness in the exact value domain: disparities are multiples of 1/scale (|d| <= bound; right map also NaN),
     so that every float32/float64 operation of the code is exact; masks stay bit-vectors"""
     import xarray as xr
@@ -148,7 +148,8 @@ def xcheck_exact(W, dmin, dmax, thr='1', H=1, offset=0, prefix=(), cap=60, block
         d = S.SymArray(np.zeros((H, W), np.float32), 'x4'); m = S.SymArray(np.zeros((H, W), np.uint16), 'u2')
         ds_ = S.fresh_array(name + 'd', (1, W), 'x4', tagged=tagged, scale=scale, tags=(0, 1)); ms_ = S.fresh_array(name + 'm', (1, W), 'u2')
         d._a[r0, :] = ds_._a[0, :]; m._a[r0, :] = ms_._a[0, :]
-        ds = xr.Dataset({"disparity_map": (["row", "col"], d), "validity_mask": (["row", "col"], m)}, coords={"row": np.arange(H), "col": np.arange(W)})
+        # col0 != 0: datasets read through a ROI keep the coordinates of the whole image (the rule must use positions, not labels)
+        ds = xr.Dataset({"disparity_map": (["row", "col"], d), "validity_mask": (["row", "col"], m)}, coords={"row": np.arange(H), "col": np.arange(col0, col0 + W)})
         ds["disparity_interval"] = xr.DataArray([dmin_, dmax_], coords=[("disparity", ["min", "max"])])
         ds.attrs = {"offset_row_col": offset}
         return ds, d, m
@@ -182,7 +183,7 @@ def xcheck_exact(W, dmin, dmax, thr='1', H=1, offset=0, prefix=(), cap=60, block
             # history: the same validator object already checked another (concrete) pair with a different interval
             wl = _concrete_ds(xr, H, W, -dmax - 1, -dmin + 1, offset, S); wr = _concrete_ds(xr, H, W, dmin - 1, dmax + 1, offset, S)
             v.disparity_checking(wl, wr)
-        ex = {'W': W, 'dmin': dmin, 'dmax': dmax, 'thr': thr, 'H': H, 'offset': offset, 'conf_band': conf_band, 'exact': True, 'warm': warm}
+        ex = {'W': W, 'dmin': dmin, 'dmax': dmax, 'thr': thr, 'H': H, 'offset': offset, 'conf_band': conf_band, 'exact': True, 'warm': warm, 'col0': col0}
         try:
             out = v.disparity_checking(L, R)
         except S.Unsupported:
@@ -275,7 +276,8 @@ def replay(cex):
     def mk(dv, mv, dmin, dmax):
         d = np.zeros((H, W), np.float32); m = np.zeros((H, W), np.uint16)
         d[r0] = np.array(dv, np.float32).reshape(-1); m[r0] = np.array(mv, np.uint16).reshape(-1)
-        ds = xr.Dataset({"disparity_map": (["row", "col"], d), "validity_mask": (["row", "col"], m)}, coords={"row": np.arange(H), "col": np.arange(W)})
+        c0 = x.get('col0', 0)
+        ds = xr.Dataset({"disparity_map": (["row", "col"], d), "validity_mask": (["row", "col"], m)}, coords={"row": np.arange(H), "col": np.arange(c0, c0 + W)})
         ds["disparity_interval"] = xr.DataArray([dmin, dmax], coords=[("disparity", ["min", "max"])])
         ds.attrs = {"offset_row_col": offset}
         return ds
